@@ -12,8 +12,8 @@ Fixpoint ascending (ms : list mig) : bool :=
               | m' :: _ => N.ltb (m_version m) (m_version m') && ascending r
               end
   end.
-(* versions that survive the i32 round trip of lib.rs:293 *)
-Definition versions_i32 (ms : list mig) : bool := forallb (fun m => N.ltb (m_version m) 2147483648) ms.
+(* `MigrationPlan::version` is a Rust u32: [m_version : N] ranges over u32 values only *)
+Definition versions_u32 (ms : list mig) : bool := forallb (fun m => N.ltb (m_version m) 4294967296) ms.
 
 Definition db_rows (d : dbstate) : list (Z * string) := match d_vt d with Some t => vt_rows t | None => [] end.
 Definition rows_within (k : N) (rows : list (Z * string)) : bool :=
@@ -21,10 +21,14 @@ Definition rows_within (k : N) (rows : list (Z * string)) : bool :=
 (* "a database recorded at version k": no version table yet or an empty one (k = 0), or a version table
    (current or legacy layout) whose largest recorded version is k *)
 Definition at_version (k : N) (d : dbstate) : bool :=
-  N.ltb k 2147483648 && rows_within k (db_rows d) && (N.eqb k 0 || has_version (Z.of_N k) (db_rows d)).
-(* recorded versions are ordinary non-negative 32-bit values (anything the migrator itself ever wrote) *)
-Definition rows_i32 (d : dbstate) : bool :=
-  forallb (fun r => Z.leb 0 (fst r) && Z.ltb (fst r) 2147483648) (db_rows d).
+  N.ltb k 4294967296 && rows_within k (db_rows d) && (N.eqb k 0 || has_version (Z.of_N k) (db_rows d)).
+(* recorded versions are u32 values (anything the migrator itself ever wrote); a tampered value outside
+   this range is read modulo 2^32 (`as u32`, lib.rs:302/320) *)
+Definition rows_u32 (d : dbstate) : bool :=
+  forallb (fun r => Z.leb 0 (fst r) && Z.ltb (fst r) 4294967296) (db_rows d).
+(* PRIMARY KEY: no version recorded twice *)
+Fixpoint versions_distinct (rows : list (Z * string)) : bool :=
+  match rows with [] => true | (v, _) :: r => negb (has_version v r) && versions_distinct r end.
 
 Definition pending (k : N) (ms : list mig) : list mig := filter (fun m => N.ltb k (m_version m)) ms.
 Definition applied_upto (k : N) (ms : list mig) : list mig := filter (fun m => N.leb (m_version m) k) ms.
@@ -54,11 +58,13 @@ Definition recorded_versions (d : dbstate) : list Z := map fst (db_rows d).
 Definition same_but_bookkeeping (d d' : dbstate) : Prop :=
   d_applied d' = d_applied d /\ recorded_versions d' = recorded_versions d.
 
-(* ---------- known-finding classifier (D9) ---------- *)
-(* a recorded (version, id) whose id differs from the compiled migration's id, both non-empty *)
+(* ---------- recorded ids vs compiled ids ---------- *)
+(* a recorded (version, id) whose id differs from the compiled migration's id, both non-empty
+   (ids of a legacy-layout table read as '' after the ALTER, hence [bootstrap]) *)
+Definition conflicts (m : mig) (r : Z * string) : bool :=
+  Z.eqb (fst r) (Z.of_N (m_version m)) && nonempty (m_id m) && nonempty (snd r) && negb (String.eqb (snd r) (m_id m)).
 Definition id_conflict (ms : list mig) (d : dbstate) : bool :=
-  existsb (fun m => existsb (fun r => Z.eqb (fst r) (Z.of_N (m_version m)) && nonempty (m_id m) && nonempty (snd r)
-                                      && negb (String.eqb (snd r) (m_id m))) (db_rows d)) ms.
+  existsb (fun m => existsb (conflicts m) (db_rows (bootstrap d))) ms.
 
 (* ---------- how many connection calls one instance can make (C11, termination) ---------- *)
 Definition plan_bound (o : opts) (ms : list mig) : nat :=
